@@ -1402,6 +1402,7 @@ func run(seed int64, n int, dir string, _ []string) {
 	lateralModelCases(g, pr, o, n)
 	starExpansionCases(g, pr, o, n)
 	precedenceSessions(g, o, n)
+	recursiveNamedCases(g, o, n)
 	lawStreams(g, pr, o, n)
 }
 
